@@ -430,7 +430,17 @@ class Untuple(_Bodies):
         return out
 
 
-PASSES = (Untuple, FirstMatch, Expand, Nest, Orient, Merge, Compare, Comprehend, Alias)
+def _fold_pass():
+    """single-use temporaries folded into the statement (or `for` / `if` header) that directly follows: the rewrite of the
+    sensitivity audit's `inline` transform (audit/transforms.py, validated there), used as the last pass"""
+    from ..audit.transforms import _InlineTemps
+
+    class Fold(_InlineTemps):
+        headers = True
+    return Fold()
+
+
+PASSES = (Untuple, FirstMatch, Expand, Nest, Orient, Merge, Compare, Comprehend, Alias, _fold_pass)
 
 
 def normalise(tree, passes=PASSES):
